@@ -38,15 +38,38 @@ def execute(b):
             aroot.getRankAttrs().setFormat("U")
         pz = lambda: {"rank0": 0, "root": proj.proj_fiber(zroot), "ranks": []}   # noqa: E731
         pa = lambda: {"rank0": 0, "root": proj.proj_fiber(aroot), "ranks": []}   # noqa: E731
-    return run_on(b, zroot, aroot, pz, pa, script, depth, emb, dz, da)
+    expr = None
+    if b.get("prebuilt"):
+        # the populate expression is BUILT while the destination is still empty; the destination then receives z0 by another route (references), and only
+        # then the stale expression is iterated.  The program is judged against the destination as it is when the loop starts.
+        if emb == "tensor":
+            zt = proj.build_tensor({"k": "F", "e": []}, IDS[:depth], default=dz, name="Z")
+            zroot = zt.getRoot()
+            pz = lambda: proj.proj_tensor(zt)           # noqa: E731
+        else:
+            zroot = proj.build_fiber({"k": "F", "e": []}, default=dz)
+            pz = lambda: {"rank0": 0, "root": proj.proj_fiber(zroot), "ranks": []}   # noqa: E731
+        expr = zroot << aroot
+
+        def fill(t, path):
+            for c, q in t["e"]:
+                if q["k"] == "F":
+                    zroot.getPayloadRef(*(path + [c]))
+                    fill(q, path + [c])
+                elif q["k"] == "L":
+                    ref = zroot.getPayloadRef(*(path + [c]))
+                    ref <<= proj.real(q["v"])
+        fill(b["z0"], [])
+        b = dict(b, z0=proj.strip(pz()["root"]))
+    return run_on(b, zroot, aroot, pz, pa, script, depth, emb, dz, da, expr)
 
 
-def run_on(b, zroot, aroot, pz, pa, script, depth, emb, dz, da):
-    out = {"tid": b["tid"], "z0": b["z0"], "a": b["a"], "script": b["script"], "depth": depth, "emb": emb, "dz": dz, "da": da, "au": 1 if b.get("au") else 0, "ash": b.get("ash", 0),
+def run_on(b, zroot, aroot, pz, pa, script, depth, emb, dz, da, expr=None):
+    out = {"tid": b["tid"], "z0": b["z0"], "a": b["a"], "script": b["script"], "depth": depth, "emb": emb, "dz": dz, "da": da, "au": 1 if b.get("au") else 0, "ash": b.get("ash", 0), "prebuilt": 1 if b.get("prebuilt") else 0,
            "a0": pa(), "offers": [], "mids": [], "exc": "ok"}
 
-    def loop(zf, af, path, lvl):
-        for c, (zr, ar) in zf << af:
+    def loop(zf, af, path, lvl, it=None):
+        for c, (zr, ar) in (it if it is not None else zf << af):
             p = path + [c]
             if lvl == 1:
                 off = {"p": p, "zv": proj.proj_payload(zr), "av": proj.strip(proj.proj_payload(ar))}
@@ -78,7 +101,7 @@ def run_on(b, zroot, aroot, pz, pa, script, depth, emb, dz, da):
                 zr.clear()
 
     try:
-        loop(zroot, aroot, [], depth)
+        loop(zroot, aroot, [], depth, expr)
     except BaseException as ex:  # noqa: B036
         out["exc"] = "err:" + type(ex).__name__ + ":" + str(ex)[:80]
     out["post"] = pz()
